@@ -744,7 +744,12 @@ func (wd *world) audit(where string) error {
 	if !soSum.Equals(v.sumS) {
 		return fmt.Errorf("%s: Σ SpendableOutputs = %v, model = %v", where, soSum, v.sumS)
 	}
-	if !bal.Spendable.Equals(soSum) {
+	if lag := v.snap.tip != v.snap.cmTip; lag {
+		// Balance judges maturity at the manager's height, SpendableOutputs and
+		// selection at the store's: they are only required to agree once the
+		// wallet has processed the stream up to the manager's tip
+		wd.cs.Class("audit=while-wallet-lags (no Balance comparison)")
+	} else if !bal.Spendable.Equals(soSum) {
 		return fmt.Errorf("%s: Balance().Spendable = %v but Σ SpendableOutputs() = %v (model %v)", where, bal.Spendable, soSum, v.sumS)
 	}
 	if probed {
@@ -792,6 +797,18 @@ func (wd *world) classifyState(v view, t0, t1 time.Time) {
 		}
 	}
 	unconfirmed := len(v.snap.E) > 0
+	if v.snap.tip != v.snap.cmTip {
+		wd.cs.Class("state=wallet-lags-behind-manager")
+		if bi, ok := wd.cm.BestIndex(v.snap.tip.Height); !ok || bi != v.snap.tip {
+			wd.cs.Class("state=wallet-on-stale-branch")
+		}
+		for id := range v.S {
+			if _, ok := v.snap.chainU[id]; !ok {
+				wd.cs.Class("state=store-lists-output-already-spent-or-reverted-on-chain")
+				break
+			}
+		}
+	}
 	if reserved {
 		wd.feat.reserved = true
 		wd.cs.Class("state=reserved-output")
@@ -1147,7 +1164,7 @@ func (wd *world) opFund(op Op, step int) error {
 		t1 = time.Now()
 		callErr = err
 		if err == nil {
-			if len(ids) == 0 && len(txn.SiacoinInputs) > nIn {
+			if len(txn.SiacoinInputs) > nIn {
 				if err := wd.checkBasis(where, basis, []types.V2Transaction{{SiacoinInputs: txn.SiacoinInputs[nIn:]}}); err != nil {
 					return err
 				}
@@ -1860,6 +1877,11 @@ func runC07(c C07Case, cs *kit.CaseStats) error {
 			if expires++; expires <= 3 {
 				err = wd.opExpire(i)
 			}
+		case "sync":
+			if wd.lagging() {
+				cs.Class("sync=wallet-catches-up")
+			}
+			err = wd.syncWallet()
 		default:
 			continue
 		}
@@ -1874,6 +1896,15 @@ func runC07(c C07Case, cs *kit.CaseStats) error {
 			return err
 		}
 	}
+	if wd.lagging() {
+		// every case ends with the wallet at the manager's tip and a full audit
+		if err := wd.syncWallet(); err != nil {
+			return err
+		}
+		if err := wd.audit("after the final sync"); err != nil {
+			return err
+		}
+	}
 	if wd.feat.all4 || wd.feat.defragRan {
 		cs.NonTrivial()
 	}
@@ -1882,9 +1913,9 @@ func runC07(c C07Case, cs *kit.CaseStats) error {
 
 var c07Prop = kit.Prop[C07Case]{
 	ID:   "C07",
-	Rule: "stateful machine over one SingleAddressWallet + chain.Manager + surviving store: drawn wallet options (defrag threshold 0..40, max inputs for defrag 1..100, max defrag outputs 0..20, reservation 50 ms / 3 h) × four hardfork regimes × ≤ 25 ops (mine to wallet/other, multi-output payments, FundTransaction/FundV2Transaction with amounts {0, 1 H, fraction, exactly spendable, +1, with unconfirmed, value of one output}, Redistribute, SplitUTXO, ReleaseInputs, sign+submit three ways, reorg 1..4 deep, wallet/node restart, sleep past a 50 ms reservation). After every call the per-input oracle (owned, in the store's unspent set, mature, not pool-spent, not reserved in the harness' own reservation model, not repeated), conservation, error ⇒ SpendableOutputs unchanged, pool acceptance of the signed result; after every step Balance().Spendable = Σ SpendableOutputs() = model = largest amount FundTransaction(…, false) funds (exact amount funds and is released, one hasting more fails with ErrNotEnoughFunds). Non-trivial = some audited state had simultaneously a reserved, a pool-spent, an immature and an unconfirmed output, or a non-default defrag configuration whose defrag branch ran; distinct by hash of the case.",
+	Rule: "stateful machine over one SingleAddressWallet + chain.Manager + surviving store: drawn wallet options (defrag threshold 0..40, max inputs for defrag 1..100, max defrag outputs 0..20, reservation 50 ms / 3 h) × four hardfork regimes × ≤ 25 ops (mine to wallet/other, multi-output payments, FundTransaction/FundV2Transaction with amounts {0, 1 H, fraction, exactly spendable, +1, with unconfirmed, value of one output}, Redistribute, SplitUTXO, ReleaseInputs, sign+submit three ways, reorg 1..4 deep — a quarter of the mine/reorg ops do not feed the wallet, which then works from its own older tip (possibly on a stale branch) until a later chain op or a sync op —, wallet/node restart, sleep past a 50 ms reservation). After every call the per-input oracle (owned, in the store's unspent set, mature, not pool-spent, not reserved in the harness' own reservation model, not repeated), conservation, error ⇒ SpendableOutputs unchanged, pool acceptance of the signed result; after every step Balance().Spendable = Σ SpendableOutputs() = model = largest amount FundTransaction(…, false) funds (exact amount funds and is released, one hasting more fails with ErrNotEnoughFunds). Non-trivial = some audited state had simultaneously a reserved, a pool-spent, an immature and an unconfirmed output, or a non-default defrag configuration whose defrag branch ran; distinct by hash of the case.",
 	Assumptions: []string{
-		"the wallet is fed every chain update before the next call (it does not subscribe itself; the harness plays the integrator exactly as the repository's syncDB test helper does)",
+		"the wallet does not subscribe itself; the harness plays the integrator (as the repository's syncDB helper does) and feeds it either at once or, for lagging chain ops, later. While it lags: inputs are judged against the wallet's own store and tip, the returned basis must be an index at which the inputs' proofs verify, pool acceptance is required iff the inputs are unspent at the manager's tip according to a second, always-fed store of the same address; Balance (which judges maturity at the manager's height) is only compared once the wallet has caught up",
 		"testutil.EphemeralWalletStore is the store (the repository's reference implementation); the unspent set it reports is the ground truth for 'unspent on chain', cross-checked by pool acceptance of every signed result",
 		"chain.Manager's pool is trusted for what is pooled (its own contract is C05/C14)",
 		"the re-broadcast loop is kept idle with WithDebounceInterval(1h); re-loading of broadcast sets at construction is exercised",
